@@ -210,7 +210,7 @@ def expected_code(event, got_settings):
 
 def part_inner(L, tier, log, samples):
     ex = E.make_executor(L, INLINE, contracts(), max_unroll=3)
-    fn = ex.find_fn(r"^connection::<impl at src/connection\.rs:142[^>]*>::poll_control$")
+    fn = ex.find_fn(r"^connection::<impl[^>]*>::poll_control$")
     # field indices of ConnectionInner from the MIR's own projections
     import re
     idx = {}
@@ -246,7 +246,7 @@ def part_inner(L, tier, log, samples):
     ex.discr_of(st, gs)
     inner.fields[(None, idx["grease_step"])] = Cell(gs)
     st.world["inner"] = Cell(inner)
-    E.call(ex, st, r"^connection::<impl at src/connection\.rs:142[^>]*>::poll_control$", [Ref(st.world["inner"]), Ref(Cell(Obj("Context")))])
+    E.call(ex, st, r"^connection::<impl[^>]*>::poll_control$", [Ref(st.world["inner"]), Ref(Cell(Obj("Context")))])
     outs = E.collect(ex, st)
     if ex.unroll_exceeded:
         raise Inconclusive("loop bound exceeded: " + repr(ex.unroll_exceeded[:3]))
